@@ -1,13 +1,17 @@
 """C01-C04 share one suite for the agent scheduler (harness/schedlib.py, props/schedsuite.py);
-C01-C03 also cover the application-level slot finder (props/nodelistsuite.py)."""
-from props import schedsuite, nodelistsuite, rmchain
+C01-C03 also cover the application-level slot finder (props/nodelistsuite.py); C01 also the resource
+manager -> scheduler chain (props/rmchain.py) and the JSRUN flavour of the scheduler (props/jsrunsched.py)."""
+from props import schedsuite, nodelistsuite, rmchain, jsrunsched
 PROP = 'C01'
 LEAN_TARGETS = ['RPVerif.Props.C01']
 def run(ctx):
     schedsuite.run(ctx, 'C01')
     nodelistsuite.run(ctx, 'C01')
     rmchain.run(ctx, 'C01')
+    jsrunsched.run(ctx, 'C01')
 def replay(ctx, data):
+    if 'jsrun' in data['input']:
+        return jsrunsched.replay(ctx, data, 'C01')
     if 'rm_chain' in data['input']:
         return rmchain.replay(ctx, data, 'C01')
     if 'nodelist' in data['input']:
